@@ -19,7 +19,8 @@ confirm)
       pkgdir=$(python3 -c "import json;print(json.load(open('$D/meta.json')).get('demo_pkg','.'))" 2>/dev/null || echo .)
       cp "$D"/demo*_test.go "$WT/$pkgdir/" 2>/dev/null
       [ -d "$D/demo_testdata" ] && mkdir -p "$WT/$pkgdir/testdata" && cp -r "$D/demo_testdata/." "$WT/$pkgdir/testdata/"
-      ( cd "$WT/$pkgdir" && go test -vet=off -count=1 -run 'Demo|Seed' . ) > "$WT/demo.$1.log" 2>&1; echo $?
+      pat=$(grep -ho 'func Test[A-Za-z0-9_]*' "$D"/demo*_test.go | sed 's/func //' | paste -sd'|')
+      ( cd "$WT/$pkgdir" && go test -vet=off -count=1 -run "^($pat)\$" . ) > "$WT/demo.$1.log" 2>&1; echo $?
     fi
   }
   echo "== without the change"; r0=$(run_demo without); echo "demo exit: $r0"; tail -3 "$WT/demo.without.log"
@@ -31,9 +32,19 @@ confirm)
   if [ "$r0" = "0" ] && [ "$r1" != "0" ]; then echo "CONFIRMED"; else echo "NOT CONFIRMED (without=$r0 with=$r1)"; exit 1; fi
   ;;
 check)
-  git -C /repo diff --quiet || { echo "/repo has uncommitted changes"; exit 2; }
-  git -C /repo apply "$D/patch.diff" || { echo "PATCH DOES NOT APPLY to /repo"; exit 2; }
-  trap 'git -C /repo checkout -- . ; git -C /repo clean -fdq' EXIT
+  # default: a scratch copy of /repo's HEAD with the change applied (VERIF_REPO); with INPLACE=1 the change is applied
+  # to /repo itself and undone afterwards
+  if [ "${INPLACE:-0}" = "1" ]; then
+    git -C /repo diff --quiet || { echo "/repo has uncommitted changes"; exit 2; }
+    git -C /repo apply "$D/patch.diff" || { echo "PATCH DOES NOT APPLY to /repo"; exit 2; }
+    trap 'git -C /repo checkout -- . ; git -C /repo clean -fdq' EXIT
+  else
+    WT=$(mktemp -d /tmp/seedrepo-XXXXXX); rmdir "$WT"
+    git -C /repo worktree add -q --detach "$WT" HEAD || exit 2
+    trap 'git -C /repo worktree remove --force "$WT"' EXIT
+    ( cd "$WT" && git apply "$D/patch.diff" ) || { echo "PATCH DOES NOT APPLY"; exit 2; }
+    export VERIF_REPO="$WT"
+  fi
   for id in "$@"; do
     out=$(cd /verif && bin/check "$id" quick 2>&1); rc=$?
     echo "check $id exit=$rc violations=$(echo "$out" | grep -c '^VIOLATION')"
